@@ -67,12 +67,13 @@ def slice_names(rng, n, fmt, scheme):
     return sorted(f"{b}.{fmt}" for b in rng.sample(NAME_POOL, n))
 
 
-def write_slices(dirpath, stack, fmt, np, names=None):
-    """stack [file, row, col, ch] -> image files with sortable names."""
+def write_slices(dirpath, stack, fmt, np, names=None, as8=()):
+    """stack [file, row, col, ch] -> image files with sortable names.  File numbers in `as8` are stored
+    as 8-bit images although the stack array is 16-bit (a stack whose slices differ in pixel type)."""
     from PIL import Image
     os.makedirs(dirpath, exist_ok=True)
     for k in range(stack.shape[0]):
-        img = stack[k]
+        img = stack[k].astype(np.uint8) if k in as8 else stack[k]
         name = os.path.join(dirpath, names[k] if names else f"s{k:04d}.{fmt}")
         if img.shape[2] == 1 and img.dtype not in (np.uint8, np.uint16):
             import tifffile
@@ -286,6 +287,22 @@ def run(R):
                          chunk=[rng.randrange(1, 4) for _ in range(3)], rel="any",
                          layout=rng.choice(["pixel", "pixel", "pixel-two-dirs"]), storage=rng.choice(["deep-gz", "plain"]),
                          sharded=False, case_code=None, pixel=(src_dt, dst_dt, stream)))
+    # stacks whose slices do NOT all have the same pixel type (8-bit and 16-bit files), laid out so that
+    # different slice groups are loaded with different block types; stratified, not left to chance
+    mixed_codes = ["RAS", "LPI", "ASR", "SRP", "IAL", "PIR", "RSA", "ILP"]
+    patterns = ["8-then-16", "16-then-8", "8-16-8", "alternate-groups"]
+    for k in range(24 if quick else 96):
+        code = mixed_codes[k % len(mixed_codes)] if k < 16 else rng.choice(ALL_CODES)
+        d = 1 + k % 3
+        ngroups = 2 + (k // 3) % 2
+        nslices = d * ngroups + (k % 2 if d > 1 else 0)
+        size = [rng.randrange(1, 4) for _ in range(3)]
+        chunk = [rng.randrange(1, 4) for _ in range(3)]
+        size[AX[code[2]]], chunk[AX[code[2]]] = nslices, d
+        jobs.append(dict(code=code, size=size, chunk=chunk, rel="mixed",
+                         layout="mixed-depth" if k % 4 else "mixed-depth-two-dirs",
+                         storage=rng.choice(["deep-gz", "plain"]), sharded=False, case_code=code,
+                         mixed=(patterns[k % len(patterns)], ["uint16", "uint16", "uint32", "float32"][(k // 2) % 4])))
     for j in jobs:
         if j["case_code"] is None:
             j["case_code"] = j["code"]
@@ -302,7 +319,9 @@ def run(R):
             w, h, n = size[0], size[1], size[2]
         lay = j["layout"]
         pixel = j.get("pixel")
-        ndirs = 3 if lay == "three-dirs" else 2 if lay in ("two-dirs", "pixel-two-dirs") else 1
+        ndirs = 3 if lay == "three-dirs" else 2 if lay in ("two-dirs", "pixel-two-dirs", "mixed-depth-two-dirs") else 1
+        mixed = j.get("mixed")
+        as8_sets = None
         # channels per directory: RGB directories may come before, between or after grey ones
         kchs = {"rgb": [3], "rgb+grey": [3, 1], "grey+rgb+grey": [1, 3, 1], "rgb+rgb": [3, 3]}.get(lay, [1] * ndirs)
         ndirs = len(kchs)
@@ -311,6 +330,30 @@ def run(R):
             stacks = [np.array(pixel_values(rng, dt, pixel[2], n * h * w, np), dtype=dt).reshape(n, h, w, 1)
                       for _ in range(ndirs)]
             fmt = "tif"
+        elif mixed:
+            dt, fmt = "uint16", rng.choice(["png", "tif"])
+            d_sl = chunk[AX[code[2]]]
+            groups = [list(range(g0, min(g0 + d_sl, n))) for g0 in range(0, n, d_sl)]
+            pat = mixed[0]
+            if pat == "8-then-16":
+                eight = set(groups[0])
+            elif pat == "16-then-8":
+                eight = set(f for g in groups[1:] for f in g)
+            elif pat == "8-16-8":
+                eight = set(groups[0]) | set(groups[-1][1:])
+            else:
+                eight = set(f for gi, g in enumerate(groups) if gi % 2 == 0 for f in g)
+            # file numbers are positions in the oriented stack for forward codes and mirrored for reversed
+            # ones; either way different groups get different block types
+            stacks, as8_sets = [], []
+            for di in range(ndirs):
+                st = np.array([rng.randrange(65536) for _ in range(n * h * w)], dtype="uint16").reshape(n, h, w, 1)
+                e8 = eight if di == 0 else set()
+                for f in e8:
+                    st[f] = st[f] % 256
+                stacks.append(st)
+                as8_sets.append(e8)
+            R.count(f"mixed-depth:{pat}:groups={len(groups)}")
         else:
             dt = "uint16" if "16" in lay else "uint8"
             hi = 65536 if dt == "uint16" else 256
@@ -326,7 +369,7 @@ def run(R):
             scheme = rng.choice(["padded", "padded", "unpadded"])
             R.count(f"slice-names:{scheme}")
             names = slice_names(rng, st.shape[0], fmt, scheme)
-            write_slices(dpath, st, fmt, np, names)
+            write_slices(dpath, st, fmt, np, names, as8_sets[di] if as8_sets else ())
             j.setdefault("slice_names", []).append(names)
             dirs.append(dpath)
         if ndirs > 1:
@@ -335,6 +378,8 @@ def run(R):
         out_dt = dt
         if pixel:
             out_dt = pixel[1]
+        elif mixed:
+            out_dt = mixed[1]
         elif rng.random() < 0.1:
             out_dt = rng.choice(["uint16", "float32"]) if dt == "uint8" else rng.choice(["uint8", "uint32"])
         R.count(f"pixel:{dt}->{out_dt}" + (f":{pixel[2]}" if pixel else ""))
